@@ -242,7 +242,10 @@ func genFields(t *rapid.T) []FieldSpec {
 				if s == "json" && rapid.IntRange(0, 4).Draw(t, "dottedJSONName") == 0 {
 					key = fmt.Sprintf("j.f%d", i) // a flattened key name ("user.name"); the dot is part of the name
 				}
-				if s != "header" && s != "cookie" && rapid.IntRange(0, 7).Draw(t, "emptyTagName") == 0 {
+				if s != "json" && rapid.IntRange(0, 9).Draw(t, "sourceSkipped") == 0 {
+					key = "-" // `query:"-"`: not a source of this field (like json:"-"); a declared default stays its default
+				}
+				if key != "-" && s != "header" && s != "cookie" && rapid.IntRange(0, 7).Draw(t, "emptyTagName") == 0 {
 					key = "" // `query:""` / `query:",required"`: the key falls back to the field name
 				}
 				f.Tags[s] = key
@@ -331,6 +334,9 @@ func keyFor(f *FieldSpec, src string) (string, bool) {
 		return f.Name, true // untagged: the field name, for every source
 	}
 	k, ok := f.Tags[src]
+	if ok && k == "-" {
+		return "", false // `query:"-"`: this source is skipped for the field
+	}
 	if ok && k == "" {
 		return f.Name, true // empty tag name: the field name
 	}
